@@ -6,7 +6,7 @@
    The generator state follows the harness discipline: while the loop runs, every request is written before the next call
    (the harness drains), so pend is empty between calls. *)
 EXTENDS IntervalPli, Json
-CONSTANTS L, Periodic, Warms
+CONSTANTS L, Periodic, Warms, Sim
 VARIABLES x, hist, n0
 vars == <<x, hist, n0>>
 Cfg == [periodic |-> Periodic]
@@ -33,7 +33,10 @@ WarmState(w) == IF w = 0 THEN Fresh
 
 Init == \E w \in Warms : x = WarmState(w) /\ hist = WarmSeq(w) /\ n0 = Len(WarmSeq(w))
 Do(y, e) == x' = Drained(y) /\ hist' = Append(hist, e) /\ UNCHANGED n0
+\* Sim (random walks with TLC's simulator): the last step is fixed, because the simulator evaluates the leaf invariant on every
+\* successor of the last-but-one state and would print one behaviour per possible last step
 Next == /\ Len(hist) < n0 + L
+        /\ ~(Sim /\ Len(hist) = n0 + L - 1)
         /\ \/ ~x.started /\ Do(BindWriterStep(x), Ev("bindw", 0, <<>>, <<>>))
            \/ \E b \in Binds : ~(SupportsPli(b[2]) /\ BlocksForever(x)) /\ Do(BindRemoteStep(x, b[1], b[2]), Ev("bind", b[1], b[2], <<>>))
            \/ \E s \in 1 .. 3 : Do(UnbindStep(x, s), Ev("unbind", s, <<>>, <<>>))
@@ -41,6 +44,8 @@ Next == /\ Len(hist) < n0 + L
            \/ \E ss \in Forces : ~BlocksForever(x) /\ Do(ForceStep(x, ss), Ev("force", 0, <<>>, ss))
            \/ TickEnabled(Cfg, x) /\ Do(x, Ev("tick", 0, <<>>, <<>>))
            \/ Do(CloseStep(x), Ev("close", 0, <<>>, <<>>))
+SimLast == Sim /\ Len(hist) = n0 + L - 1 /\ Do(CloseStep(x), Ev("close", 0, <<>>, <<>>))
+SimNext == Next \/ SimLast
 Leaf == IF Len(hist) = n0 + L
         THEN PrintT(<<"TRACE", ToJson(Append(hist, Ev("close", 0, <<>>, <<>>)))>>) /\ FALSE
         ELSE TRUE
